@@ -176,10 +176,144 @@ def _cls(t):
     return re.sub(r"\d+", "N", t)[:70]
 
 
+SIGMA8 = bytes.fromhex("0002040630 81 a2 ff".replace(" ", ""))
+
+
+def classify_public(out, op):
+    """Public clients: documented = a value, or an Exception of the documented families."""
+    mod, fast = drivers.subject()
+    if out.kind == "ok":
+        return "value", True
+    e = out.exc
+    if not isinstance(e, Exception):
+        return "non-Exception:" + out.exc_name, False
+    if isinstance(e, (fast.SnmpError, TimeoutError, OSError, ValueError, NotImplementedError)):
+        return out.exc_name, True
+    if isinstance(e, RuntimeError) and op == "get_many":
+        return "RuntimeError", True
+    # StopIteration / StopAsyncIteration must not escape from get()/get_many()/list(walk)
+    return "undocumented:" + out.exc_name, False
+
+
+def run_public_block(case, res):
+    """The same deviations through the real sync / async clients (binds the Python wrappers)."""
+    cfg = Cfg.from_desc(case["cfg"])
+    op = case["op"]
+    state = {"dev": None, "n": 0}
+    skel_idx = case["skel"]
+
+    def responder(data, idx):
+        try:
+            req = drivers.open_request(cfg, data, strict=False, check_mac=False)
+        except (rb.StrictError, drivers.V3Error, ValueError):
+            return []  # e.g. a follow-up request echoing a malformed OID the agent itself supplied
+        if req.request_id is None:
+            return []
+        name, pdu = skeleton_pdus(op if op != "walk-next" else "getnext", req.request_id)[skel_idx]
+        if cfg.version != "v3":
+            base = rb.build_community_msg(req.version, req.community, pdu)
+            dg = state["dev"](base)
+        else:
+            scoped = rb.build_scoped(cfg.engine_id, b"", pdu)
+            dg = drivers.seal_reply(cfg, req.msg_id, cfg.engine_id, req.boots, req.time, state["dev"](scoped))
+        return [dg[:4080]] if dg else []
+
+    # deviations are positional: enumerate over a probe skeleton of the same shape
+    probe = skeleton_pdus(op if op != "walk-next" else "getnext", 0x12345678)[skel_idx][1]
+    if cfg.version != "v3":
+        probe = rb.build_community_msg(1, b"public", probe)
+    else:
+        probe = rb.build_scoped(cfg.engine_id, b"", probe)
+    n = len(probe)
+    devs = [("trunc", t, 0) for t in range(0, n, 3)] + [("sub", p, a) for p in range(n) for a in SIGMA8]
+
+    def mk(dev):
+        kind, p, a = dev
+
+        def f(base):
+            if kind == "trunc":
+                return base[: min(p, len(base))]
+            if p >= len(base) or base[p] == a:
+                return base
+            return base[:p] + bytes([a]) + base[p + 1 :]
+
+        return f
+
+    base_oid = rb.oid_str(BASE)
+    one = rb.oid_str(BASE + (2, 1, 1))
+
+    def judge(dev, out):
+        res.count("public_calls")
+        cls, ok = classify_public(out, op)
+        res.outcome("public:" + cls)
+        if not ok:
+            res.violation(
+                "public/%s/%s/%s: %s" % (case["driver"], cfg.name if cfg.version == "v3" else cfg.version, op, cls),
+                "%s client, pending %s, deviation %r of skeleton %d: %s: %s" % (case["driver"], op, dev, skel_idx, out.exc_name, str(out.exc)[:160]),
+                {"cfg": case["cfg"], "op": op, "driver": case["driver"], "skel": skel_idx, "public_dev": list(dev)},
+            )
+
+    only = case.get("public_dev")
+    if only:
+        devs = [tuple(only)]
+    if case["driver"] == "sync":
+        w = drivers.SyncWorld(cfg, responder, timeout=0.005)
+        try:
+            s = w.session
+            for dev in devs:
+                state["dev"] = mk(dev)
+                if op == "get":
+                    out = drivers.call(s.get, one)
+                elif op == "get_many":
+                    out = drivers.call(s.get_many, [one, rb.oid_str(BASE + (2, 1, 2))])
+                elif op == "walk-next":
+                    out = drivers.call(lambda: [x for _, x in zip(range(3), s.getnext(base_oid))])
+                else:
+                    out = drivers.call(lambda: [x for _, x in zip(range(3), s.getbulk(base_oid, 5))])
+                judge(dev, out)
+            if w.errors:
+                res["machinery"].append("agent errors %s" % w.errors[:2])
+        finally:
+            w.close()
+    else:
+
+        async def client(s):
+            for dev in devs:
+                state["dev"] = mk(dev)
+                try:
+                    if op == "get":
+                        v = await s.get(one)
+                    elif op == "get_many":
+                        v = await s.get_many([one, rb.oid_str(BASE + (2, 1, 2))])
+                    else:
+                        v = []
+                        it = s.getnext(base_oid) if op == "walk-next" else s.getbulk(base_oid, 5)
+                        async for x in it:
+                            v.append(x)
+                            if len(v) >= 3:
+                                break
+                    out = drivers.Outcome("ok", v)
+                except BaseException as e:  # noqa: BLE001
+                    if isinstance(e, (KeyboardInterrupt, SystemExit, MemoryError)):
+                        raise
+                    out = drivers.Outcome("exc", exc=e)
+                judge(dev, out)
+
+        o, reqs, errs = drivers.run_async(cfg, responder, client, timeout=0.005)
+        if errs:
+            res["machinery"].append("agent errors %s" % errs[:2])
+        if o.kind != "ok":
+            res["machinery"].append("async driver failed %r" % (o.brief(),))
+    res.count("blocks")
+
+
 def work(chunk):
     res = common.Result()
     for case in chunk:
-        run_block(case, res)
+        if case.get("driver"):
+            run_public_block(case, res)
+        else:
+            run_block(case, res)
     return res
 
 
@@ -201,12 +335,25 @@ def gen_cases(tier):
                         if level == "raw" and cfg.version == "v3" and sk % 4:
                             continue
                     yield {"cfg": cfg.describe(), "op": op, "skel": sk, "level": level, "full": thorough and (cfg.version == "v2c" or cfg.priv == 2)}
+    # the Python wrappers: a slice of the same deviations through both public clients
+    for driver in ("sync", "async"):
+        for cfg in (Cfg("v2c"), Cfg("v3", auth=2, priv=2)) + ((Cfg("v1"), Cfg("v3")) if thorough else ()):
+            for op in ("get", "get_many", "walk-next", "walk-bulk"):
+                nsk = len(skeleton_pdus("getnext" if op == "walk-next" else ("getbulk" if op == "walk-bulk" else op), 1))
+                for sk in range(nsk):
+                    if not thorough and sk % 5 not in (0, 3):
+                        continue
+                    yield {"driver": driver, "cfg": cfg.describe(), "op": op, "skel": sk}
 
 
 def replay(case):
     if case.get("engine") == "rsx":
         return rsx.replay(case)
     common.prepare_stage()
+    if case.get("driver"):
+        res = common.Result()
+        run_public_block(case, res)
+        return {"violations": [(v[0], v[1]) for v in res["violations"]], "outcomes": res["outcomes"]}
     mod, fast = drivers.subject()
     cfg = Cfg.from_desc(case["cfg"])
     force = getattr(fast, "_verif_rng_force", None)
@@ -254,6 +401,6 @@ def run(tier):
     rsx.run("c01", tier, rec)
     cases = list(gen_cases(tier))
     common.run_cases(rec, work, cases, chunk=1, timeout=900, case_timeout=600)
-    n = rec.counters["rsx_decodes"] + rec.counters["datagrams"]
+    n = rec.counters["rsx_decodes"] + rec.counters["datagrams"] + rec.counters["public_calls"]
     return rec.finish(evaluations=n, distinct_nontrivial=rec.counters["rsx_e1_strings"] + rec.counters["rsx_e2_inputs"] + rec.counters["rsx_e3_inputs"] + rec.counters["rsx_e4_decrypts"] + rec.counters["datagrams"],
                       states=n, transitions=n, traces=rec.counters["datagrams"])
